@@ -750,6 +750,7 @@ func (s *State) applyFunction(name string, fn object.Object, args []object.Objec
 		s.cache = NewCache()
 		s.cacheGen = g
 	}
+	gen := s.cacheGen
 	if v, output, ok := s.cache.Get(function.CacheKey, args); ok {
 		log.Debugf("Cache hit for %s %v -> %#v", function.CacheKey, args, v)
 		if len(output) > 0 {
@@ -790,7 +791,8 @@ func (s *State) applyFunction(name string, fn object.Object, args []object.Objec
 			log.Warnf("output: %v", err)
 		}
 	}
-	if after != before {
+	if after != before || s.env.FuncGeneration() != gen {
+		// (or a top level function was redefined during this call: what it computed with the old one is stale)
 		log.Debugf("Cache miss for %s %v, %d get misses", function.CacheKey, args, after-before)
 		// Propagate to the caller: it too depended on something that isn't fixed for a given cache key
 		// (a callee that read a mutable outer variable, or called a non cacheable extension).
